@@ -67,6 +67,10 @@ claimed = {
    text="Proof of transaction hygiene of the Postgres backend against a driver in which every call (BeginTx, Exec, Query, Next, Scan, Commit, Rollback) may fail at every call site - so every placement of one, two or any number of faults is covered without enumeration: the handle the store holds is live, the number of open transactions it began is exactly one while it holds a handle and zero otherwise (ghost counter: each begun transaction is ended exactly once; no statement, commit or rollback on an ended handle), outside multi-operation mode no transaction is left open after Put/Get/Start/Stop/Abort whatever failed, a multi-operation transaction survives successful Puts, and no path dereferences a nil transaction (automatic no-panic obligations).",
    note="Two genuine defects repaired (fix: 32db1b3 Put left the transaction open after a failed statement; fix: f7fe844 Abort without a transaction dereferenced nil). Known findings H14c/H14d: Stop and Abort leave the store in multi-operation mode, so a later acknowledged single Put is committed only by Close (the existing TestPostgresTxStartStop expects this, so it is not repaired). Not covered: value semantics (which rows a committed transaction makes visible: SQL text and pgx argument passing are outside reach), Close, Connect/ensureTable, Dump. Trusted: pgx typestate stubs (Commit/Rollback end the transaction also when they report an error), vcgo translation, solvers.",
    ref="4/C13"),
+ "C18": dict(
+   text="Proof along the path a language takes: State.SetLanguage selects exactly the ISO-639-3 form of a known code and leaves the language alone for an unknown one; refresh switches the language only together with the LANG flag and to the returned code; Vm.Run's loop invariant says that whenever LANG is clear the context carries the state's language, and call-site assertions show that every LOAD/RELOAD/MOVE/INCMP/CATCH handler call (all external-function and code lookups) is made with that context; Engine.Exec and Engine.Flush put the state's language into the context before the VM runs or renders (call-site assertions); DbBase.ToKey derives the translation key from the store's language, else from the context's, and the memory/filesystem Get falls back to the default entry (C10 contracts).",
+   note="Known finding H25 (SetLanguage(\"\") reports an error and clears the language). Not covered: survival across save/resume (cbor serialisation of State.Language is outside reach), lookups inside the assumed render contracts (RenderTemplate, Menu.Render: the context is passed through unchanged by Vm.Render/Page.Render, which is checked), PoResource. Trusted: ISO table stub, context.WithValue/Value stubs, vcgo translation, solvers.",
+   ref="4/C18"),
 }
 
 pending_reason = "pending: contracts for this property are not yet under vcgo (see DESIGN.md section 4)"
